@@ -89,12 +89,20 @@ class Container:
             op.transition(OperatorState.RUNNING)
 
             segments = op.get_segments()
+
+            # The operator completes on the last tick of its last segment
+            # that takes any time at all: trailing segments may round down
+            # to zero ticks and would otherwise never reach the completion
+            # check below.
+            last_busy_seg_idx = None
+            for seg_idx, seg in enumerate(segments):
+                io_ticks, cpu_ticks = self._segment_ticks(seg)
+                if io_ticks + cpu_ticks > 0:
+                    last_busy_seg_idx = seg_idx
+
             for seg_idx, seg in enumerate(segments):
                 # Calculate ticks for I/O phase and CPU phase
-                io_secs = seg.get_io_seconds()
-                cpu_secs = seg.get_cpu_time(self.assignment.cpu)
-                io_ticks = int(io_secs / self.tick_length_secs)
-                cpu_ticks = int(cpu_secs / self.tick_length_secs)
+                io_ticks, cpu_ticks = self._segment_ticks(seg)
                 total_seg_ticks = io_ticks+cpu_ticks
 
                 for i in range(total_seg_ticks):
@@ -120,15 +128,34 @@ class Container:
                     # suspend, depending on whether this is the last
                     # op.
                     self._can_suspend = False
-                    if seg_idx == len(segments)-1 and i == total_seg_ticks - 1:
-                        # Operator completed successfully
-                        op.transition(OperatorState.COMPLETED)
-                        self._current_op_idx += 1
-                        if op_idx == len(self.operators) - 1:
-                            self._mark_completed()
-                        else:
-                            self._can_suspend = True
+                    if seg_idx == last_busy_seg_idx and i == total_seg_ticks - 1:
+                        self._complete_operator(op_idx, op)
                     yield
+
+            if last_busy_seg_idx is None:
+                # No segment takes a whole tick: the operator still occupies
+                # one tick, in which it completes.
+                self._can_suspend = False
+                self._complete_operator(op_idx, op)
+                yield
+
+    def _segment_ticks(self, seg):
+        """Ticks the I/O phase and the CPU phase of a segment take in this container."""
+        io_secs = seg.get_io_seconds()
+        cpu_secs = seg.get_cpu_time(self.assignment.cpu)
+        io_ticks = int(io_secs / self.tick_length_secs)
+        cpu_ticks = int(cpu_secs / self.tick_length_secs)
+        return io_ticks, cpu_ticks
+
+    def _complete_operator(self, op_idx, op):
+        """Operator completed successfully: either the container is done,
+        or it sits at an operator boundary and may be suspended."""
+        op.transition(OperatorState.COMPLETED)
+        self._current_op_idx += 1
+        if op_idx == len(self.operators) - 1:
+            self._mark_completed()
+        else:
+            self._can_suspend = True
 
     def tick(self):
         """Execute one tick. Advances generator to next state."""
